@@ -27,8 +27,7 @@ func sovModel(fr *frame, a []value) value {
 	// symbolic operand: the exact ladder (9 comparisons over sums of symbolic
 	// timestamps) makes z3 answer unknown; sizes only feed batching thresholds
 	// and metrics, so over-approximate with an arbitrary legal varint length.
-	v := fr.i.path.fresh("sov", 64)
-	fr.i.path.assume(tAnd(tCmp("bvule", tConst(64, 1), v), tCmp("bvule", v, tConst(64, 10))))
+	v := fr.i.path.freshRanged("sov", 64, 1, 10)
 	return intVal(v)
 }
 
